@@ -1118,3 +1118,61 @@ func vClockJumpRun(t *testing.T) {
 func init() {
 	vModes["clockjump"] = vClockJumpRun
 }
+
+// ---------------------------------------------------------------------------------------------------------------------
+// mode flushdb (C09) — LockDB.FlushDB is what a follower runs before a transfer from scratch (ReplicationManager.FlushDB in
+// ReplicationClient.InitSync): afterwards the node holds NOTHING, whatever its tables looked like — long-expiry buckets with holes left by
+// earlier unlocks, the second wheel, queued requests. Monitor only.
+func vFlushDBRun(t *testing.T) {
+	out := vOpen("flushdb")
+	defer out.close()
+	vFastPark = true
+	v := vNewSeq(2, 0xff)
+	rec := &vMsRec{got: map[int][]vMsReply{}}
+	v.onReply = func(rp vReply) { rec.add(rp.req, rp.result) }
+	req, key := 400000, 400000
+	for round := 0; round < 6; round++ {
+		var keys, ids []int
+		n := 3 + round
+		for i := 0; i < n; i++ {
+			key++
+			req += 2
+			keys = append(keys, key)
+			ids = append(ids, req)
+			// one second, one expiry: the holds share a long-expiry bucket (journal-at-once flag 0x0100 with more than 5 s puts a hold there at once);
+			// every third hold is a plain one in the second wheel
+			eflag, exp := uint16(0x0100), uint16(170)
+			if i%3 == 2 {
+				eflag, exp = 0, 7
+			}
+			_ = v.conns[0].ProcessLockCommand(vMsCmd(protocol.COMMAND_LOCK, req, req, key, 0, 0, eflag, exp))
+		}
+		// holes: release some of the earlier ones (by the round: the first, the second, both, …)
+		for i := 0; i < n-1; i++ {
+			if (round+1)&(1<<uint(i%3)) != 0 {
+				_ = v.conns[0].ProcessLockCommand(vMsCmd(protocol.COMMAND_UNLOCK, 3000000+req+i, ids[i], keys[i], 0, 0, 0, 0))
+			}
+		}
+		// a queued request as well
+		_ = v.conns[1].ProcessLockCommand(vMsCmd(protocol.COMMAND_LOCK, req+1, req+1, keys[n-1], 0, 30, 0, 10))
+		_ = v.db.FlushDB()
+		left := []string{}
+		for _, k := range keys {
+			if ks := v.keySnap(k); len(ks.holds) > 0 || len(ks.waits) > 0 {
+				left = append(left, fmt.Sprintf("key %d: %v %v", k, ks.holds, ks.waits))
+			}
+		}
+		st := v.counters()
+		if len(left) > 0 || st.LockedCount != v.base.LockedCount {
+			out.monitor("C09:flush-leaves-holds", fmt.Sprintf("after LockDB.FlushDB (round %d: %d holds, some released before) the node still holds: %v (LockedCount moved by %d)", round, n, left, int32(st.LockedCount-v.base.LockedCount)),
+				map[string]interface{}{"mode": "flushdb", "round": round})
+		}
+		rec2 := fmt.Sprintf("# flushdb round %d", round)
+		out.emit(rec2, rec2)
+		v.base = v.counters()
+	}
+}
+
+func init() {
+	vModes["flushdb"] = vFlushDBRun
+}
